@@ -13,3 +13,6 @@ import EasyNet.Lemmas.RUSpec
 import EasyNet.Props.C01
 import EasyNet.Props.C02
 import EasyNet.Props.C07
+import EasyNet.Lemmas.BufConsumerSim
+import EasyNet.Lemmas.BRU
+import EasyNet.Lemmas.BRUSpec
